@@ -482,7 +482,7 @@ class Session:
                 early.append("O3: process %d started in group %s, its pipeline is led by %d" % (mp, self.mpid_of(r["pgid"]), mpids[0]))
                 if r["pgid"] == self.sh.pid:
                     self.classes.add("stage_outside_group")
-            if bg and r["tpgid"] is not None and r["tpgid"] == r["pgid"]:
+            if bg and r["tpgid"] is not None and r["pgid"] == lead and r["tpgid"] == r["pgid"]:
                 early.append("O4: background process %d found its own group in the foreground when it started" % mp)
         if stolen:
             early.append("O4: while the background job %d was launched the terminal belonged to %s" %
